@@ -4,7 +4,7 @@
    the code after the repair `fix: withdraw_liquidity pays the exact pro-rata share` (before it the share ratio was
    truncated to 18 digits and the literal lower bound was false; recorded as fixed in known_findings.json). *)
 From MD.Model Require Import Base Ownable Epoch PoolMath Types PoolManager FarmManager Chain.
-From MD.Proofs Require Import PoolMathProofs SwapProofs PmProofs LiquidityProofs BankProofs TxBalances PoolCustodyChain LockedLiquidity DepositValue NonVacuity.
+From MD.Proofs Require Import PoolMathProofs SwapProofs PmProofs LiquidityProofs BankProofs TxBalances PoolCustody PoolCustodyChain LockedLiquidity DepositValue NonVacuity.
 
 (* constant-product deposit: LP minted = min(floor(a*S/x), floor(b*S/y)) is never more than the depositor's
    proportional contribution in either asset ... *)
@@ -34,7 +34,7 @@ Theorem C02_deposit_handler_never_dilutes : forall w sender funds ls ss r pid l 
   exists m,
     msgs = [plain (MTfMint (p_lp p, m) (addr_or_default w r sender))] /\ 0 <= m /\
     m * x <= camt funds dx * S /\ m * y <= camt funds dy * S /\
-    (forall d, res s' d = res (w_pm w) d + camt funds d) /\
+    (forall d, PoolCustody.res s' d = PoolCustody.res (w_pm w) d + camt funds d) /\
     x * y * ((S + m) * (S + m)) <= (x + camt funds dx) * (y + camt funds dy) * (S * S).
 Proof. exact provide_cp_value. Qed.
 
